@@ -38,6 +38,9 @@ def run(ctx):
            bool(desc['upper']) and str(desc['upper']) == 'upper' and bool(desc['ws']),
            f'descriptor {desc}: get_type() returns the keyword as spelled (inner whitespace / case kept)')
     check_cte_comments(ctx)
+    from .. import rules_base as RB
+    ctx.rule('R18.B', 'base model: containment, flags, Token.match, imt and token_first/token_next behave as the abstract evaluation assumes', floor=1)
+    RB.check_base_model(ctx, 'R18.B', parts=('contains', 'flags', 'match', 'imt', 'nav'))
 
 
 def check_token_first(ctx, V):
